@@ -1,5 +1,6 @@
 pub mod c01;
 pub mod c04;
+pub mod c05;
 pub mod c06;
 pub mod c07;
 
@@ -9,6 +10,7 @@ pub fn dispatch(p: &str, rep: &mut Report) -> bool {
     match p {
         "C01" => c01::run(rep),
         "C04" => c04::run(rep),
+        "C05" => c05::run(rep),
         "C06" => c06::run(rep),
         "C07" => c07::run(rep),
         _ => return false,
